@@ -10,6 +10,11 @@ pub enum St {
     InExtra { central_only: bool },
     AfterRaw,
     Closed,
+    /// a pending extra-data buffer was rejected: the writer keeps it and refuses to move on
+    Stuck,
+    /// the compressor switch failed: the writer is closed for good
+    Dead,
+    /// anything else went wrong: nothing is assumed any more (R6)
     Unknown,
 }
 
@@ -208,6 +213,8 @@ fn st_code(s: St) -> u8 {
         St::AfterRaw => 4,
         St::Closed => 5,
         St::Unknown => 6,
+        St::Stuck => 7,
+        St::Dead => 8,
     }
 }
 
@@ -253,7 +260,7 @@ impl Model {
 
     pub fn expect(&self, op: &Op) -> Expect {
         use Expect::*;
-        if self.st == St::Unknown {
+        if matches!(self.st, St::Unknown | St::Stuck | St::Dead) {
             return match op {
                 Op::SetComment { .. } => MustOk,
                 _ => Either,
@@ -308,7 +315,7 @@ impl Model {
                 St::Idle | St::Closed => MustErr,
                 St::InFile | St::InExtra { .. } => MustOk,
                 St::AfterRaw => Either,
-                St::Unknown => Either,
+                _ => Either,
             },
             Op::EndExtra | Op::EndLocal => match self.st {
                 St::InExtra { .. } => {
@@ -383,7 +390,7 @@ impl Model {
 
     /// Apply one executed step. `src` resolves raw-copy sources. Returns a mismatch if the actual
     /// result contradicts the model's expectation.
-    pub fn step(&mut self, op: &Op, step: &Step, src: &dyn Fn(usize, usize) -> Option<SrcEntry>) -> Result<(), Mismatch> {
+    pub fn step(&mut self, op: &Op, step: &Step, src: &dyn Fn(usize, usize, u8) -> Option<SrcEntry>) -> Result<(), Mismatch> {
         // harness-level failures (source archive did not open) do not touch the writer
         if let Res::Err(e) = &step.res {
             if e.starts_with("Source/") || e == "NoWriter" {
@@ -406,6 +413,34 @@ impl Model {
             Res::Ok(v) => v,
             _ => 0,
         };
+        // what a failure of a state-changing call does to the writer (known failure modes; anything
+        // else is Unknown): decided before the state is touched
+        let fail_to = if !self.pending_ok() {
+            St::Stuck
+        } else {
+            match op {
+                Op::StartFile { o, .. } | Op::StartAligned { o, .. } if !self.opts_supported(o) => St::Dead,
+                Op::EndExtra | Op::EndLocal if matches!(self.st, St::InExtra { central_only: false }) && !self.entries.last().map(|e| e.opts_ok).unwrap_or(true) => St::Dead,
+                _ => St::Unknown,
+            }
+        };
+        if matches!(self.st, St::Stuck | St::Dead) {
+            match op {
+                Op::SetComment { .. } | Op::Append => {}
+                Op::Write { .. } | Op::Flush if self.st == St::Stuck => {
+                    return Ok(()); // bytes keep going into the rejected extra buffer
+                }
+                _ => {
+                    if ok {
+                        // the writer recovered in a way the model does not describe
+                        self.st = St::Unknown;
+                        self.lenient = true;
+                    } else {
+                        return Ok(());
+                    }
+                }
+            }
+        }
         match op {
             Op::SetComment { c } => {
                 if self.st != St::Closed {
@@ -481,7 +516,7 @@ impl Model {
                         }
                     }
                 } else if self.st != St::Closed {
-                    self.st = St::Unknown;
+                    self.st = fail_to;
                     self.lenient = true;
                 }
             }
@@ -497,7 +532,7 @@ impl Model {
                         self.st = St::Idle;
                     }
                 } else if self.st != St::Closed {
-                    self.st = St::Unknown;
+                    self.st = fail_to;
                     self.lenient = true;
                 }
             }
@@ -513,16 +548,16 @@ impl Model {
                         self.st = St::Idle;
                     }
                 } else if self.st != St::Closed {
-                    self.st = St::Unknown;
+                    self.st = fail_to;
                     self.lenient = true;
                 }
             }
-            Op::RawCopy { src: si, index, rename, .. } => {
+            Op::RawCopy { src: si, index, rename, how } => {
                 if ok {
                     if self.st != St::Unknown {
                         self.commit_pending();
                     }
-                    if let Some(s) = src(*si, *index) {
+                    if let Some(s) = src(*si, *index, *how) {
                         let e = MEntry {
                             name: rename.clone().unwrap_or_else(|| s.name.clone()),
                             kind: MKind::Raw,
@@ -549,7 +584,7 @@ impl Model {
                         self.st = St::AfterRaw;
                     }
                 } else if self.st != St::Closed {
-                    self.st = St::Unknown;
+                    self.st = fail_to;
                     self.lenient = true;
                 }
             }
@@ -562,7 +597,7 @@ impl Model {
                         }
                         self.st = St::InFile;
                     } else {
-                        self.st = St::Unknown;
+                        self.st = fail_to;
                         self.lenient = true;
                     }
                 }
@@ -580,7 +615,7 @@ impl Model {
                         self.buf.clear();
                         self.st = St::InExtra { central_only: true };
                     } else {
-                        self.st = St::Unknown;
+                        self.st = fail_to;
                         self.lenient = true;
                     }
                 }
@@ -594,7 +629,7 @@ impl Model {
                     self.complete = true;
                     self.finish_ok = true;
                 } else if self.st != St::Closed {
-                    self.st = St::Unknown;
+                    self.st = fail_to;
                     self.lenient = true;
                     self.complete = false;
                 }
@@ -602,7 +637,7 @@ impl Model {
             Op::Append => {
                 // the previous writer was dropped (finalised like finish if it was in a clean state)
                 self.end_of_life();
-                if !self.complete {
+                if !self.complete || self.lenient {
                     // the durable image is not one the model can describe: nothing is asserted from here on
                     self.chaos = true;
                 }
@@ -626,7 +661,7 @@ impl Model {
     pub fn end_of_life(&mut self) {
         match self.st {
             St::Closed => {}
-            St::Unknown => {
+            St::Unknown | St::Stuck | St::Dead => {
                 self.complete = false;
             }
             St::InExtra { .. } => {
@@ -645,7 +680,7 @@ impl Model {
 }
 
 /// Run the model over a finished execution.
-pub fn run_model(m: &mut Model, ops: &[Op], steps: &[Step], final_res: &Option<Res>, src: &dyn Fn(usize, usize) -> Option<SrcEntry>) -> Result<(), Mismatch> {
+pub fn run_model(m: &mut Model, ops: &[Op], steps: &[Step], final_res: &Option<Res>, src: &dyn Fn(usize, usize, u8) -> Option<SrcEntry>) -> Result<(), Mismatch> {
     for (op, st) in ops.iter().zip(steps.iter()) {
         m.step(op, st, src)?;
     }
